@@ -130,6 +130,8 @@ class Layout:
             flat = np.array(val, dtype=float).reshape(-1)
             pos = 0
             for (i, var, n) in items:
+                if pos + n > len(flat):
+                    raise LayoutMismatch(f"result {name!r}: {len(flat)} entries, but {var} of {i} is expected at {pos}:{pos + n}")
                 piece = flat[pos : pos + n]
                 pos += n
                 if var == "$q":
